@@ -43,7 +43,9 @@ ASSUMPTIONS = [
     "Snowfall filter queries are the bare string for one name and a list for several names",
 ]
 RULE = ("EXHAUSTIVE over shapes: every shape n_x, n_y <= 7, n_z <= 4 (quick) / <= 12, <= 5 (thorough), both "
-        "arrangements, x five code paths (getVialGroup for every single name, pairs and an unknown name; statistics "
+        "arrangements, x five code paths (getVialGroup for every single name, EVERY subset of the six names with two or "
+        "more elements in rotated order, lists with duplicates and an unknown name; the same three- and four-name "
+        "combinations as storeStates lists, through Snowflake.nucleationTimes(group=...) and through the Snowfall filters; statistics "
         "table and trajectory table of a short real run; Snowfall accessors with group=...; storeStates group "
         "requests, plain and thinned with uniform / random inside every group, with the trajectory-table labels of the "
         "recorded subset; index-list requests in non-ascending order with the data of each trajectory row identified "
@@ -59,6 +61,28 @@ PARALLEL = True
 NAMES = ["corner", "edge", "core", "side", "all", "center"]
 QUERIES = [[n] for n in NAMES] + [["corner", "edge"], ["edge", "core"], ["side", "core", "corner"],
                                   ["corner", "all"], ["all", "foo"], ["foo"], ["corner", "foo"], ["Corner"], []]
+
+
+def _combos():
+    """every subset of the six names with two or more elements, listed in a rotated order (so that no position is
+    special), plus lists with duplicates"""
+    out = []
+    for r in range(2, len(NAMES) + 1):
+        for k, c in enumerate(itertools.combinations(NAMES, r)):
+            c = list(c)
+            rot = k % r
+            out.append(c[rot:] + c[:rot])
+    out += [["corner", "edge", "corner"], ["core", "core"], ["side", "edge", "side", "corner", "edge"],
+            ["core", "edge", "corner"], ["edge", "core", "corner", "center"]]
+    return out
+
+
+COMBOS = _combos()
+QUERIES = QUERIES + [c for c in COMBOS if c not in QUERIES]
+# combinations asked through the other code paths (Snowflake statistics accessor, Snowfall filters, storeStates lists)
+PATH_COMBOS = [["corner", "edge", "core"], ["core", "edge", "corner"], ["corner", "edge", "core", "side"],
+               ["side", "core", "corner", "edge"], ["edge", "edge", "corner"], ["center", "core", "side"],
+               ["corner", "edge", "core", "center"], ["edge", "side"]]
 # recording requests that thin a group: the recorded vials must stay inside the named group
 THIN = [f"uniform.{g}.2" for g in ("corner", "edge", "core", "side", "center")] + \
        [f"{g}_uniform_3" for g in ("edge", "core")] + \
@@ -66,7 +90,7 @@ THIN = [f"uniform.{g}.2" for g in ("corner", "edge", "core", "side", "center")] 
 THIN_LABELLED = ("uniform.corner.2", "uniform.edge.2", "uniform.core.2", "uniform.side.2", "edge_uniform_3",
                  "corner_random_1", "edge_random_2")
 THIN_QUERIED = ("uniform.edge.2", "corner_random_1", "all_uniform_3")
-FALL_QUERIES = [[n] for n in NAMES] + [["corner", "edge"], ["side", "core"], ["corner", "all"]]
+FALL_QUERIES = [[n] for n in NAMES] + [["corner", "edge"], ["side", "core"], ["corner", "all"]] + PATH_COMBOS
 
 
 def _lab(v):
@@ -245,6 +269,34 @@ def run_impl(case):
         except Exception as e:
             store[g] = {"raise": core.exc_class(e)}
     obs["store"] = store
+    # 4b. the same combinations as a storeStates list and through the Snowflake statistics accessor (which reads
+    #     the public `stats` attribute at call time: nucleation times set to the vial index show the selected vials)
+    storel, statq = {}, {}
+    for q in PATH_COMBOS:
+        try:
+            S2 = Snowflake(storeStates=list(q), **kw)
+            storel[_q(q)] = [int(i) for i in np.where(stored_mask(S2))[0]]
+        except HarnessError:
+            raise
+        except Exception as e:
+            storel[_q(q)] = {"raise": core.exc_class(e)}
+    obs["storeLists"] = storel
+    try:
+        S8 = Snowflake(storeStates=None, **kw)
+        S8.run()
+        S8.stats["t_nucleation"] = np.arange(N, dtype=float)
+        for q in PATH_COMBOS + [[n] for n in NAMES]:
+            try:
+                statq[_q(q)] = sorted(int(v) for v in S8.nucleationTimes(group=(q[0] if len(q) == 1 else list(q))))
+            except HarnessError:
+                raise
+            except Exception as e:
+                statq[_q(q)] = {"raise": core.exc_class(e)}
+    except HarnessError:
+        raise
+    except Exception as e:
+        statq = {"raise": core.exc_class(e)}
+    obs["statQueries"] = statq
     # 5. thinning inside a group (uniform / random); the trajectory table of a short run must carry the group's label
     from props.c18 import _recording
 
@@ -349,6 +401,13 @@ def run_model(drv, case, impl):
             raise RuntimeError(r3["error"])
         store[g] = {"raise": r3["raise"]} if "raise" in r3 else r3["mask"]
     out["store"] = store
+    storel = {}
+    for q in PATH_COMBOS:
+        r3 = drv.call(dict(op="store", kind="strs", strs=q, **sh))
+        if "error" in r3:
+            raise RuntimeError(r3["error"])
+        storel[_q(q)] = {"raise": r3["raise"]} if "raise" in r3 else r3["mask"]
+    out["storeLists"] = storel
     thin = {}
     for sp in THIN:
         ch = (impl.get("thin") or {}).get(sp, {}).get("choices", [])
@@ -406,6 +465,17 @@ def compare(case, impl, model):
     for g, m in model["store"].items():
         if impl["store"].get(g) != m:
             dis.append(f"storeStates={g!r}: impl {impl['store'].get(g)} vs model {m}")
+    for q, m in model["storeLists"].items():
+        if impl.get("storeLists", {}).get(q) != m:
+            dis.append(f"storeStates={q}: impl {impl.get('storeLists', {}).get(q)} vs model {m}")
+    sq = impl.get("statQueries", {})
+    if "raise" in sq:
+        dis.append(f"Snowflake.run / nucleationTimes raises {sq['raise']}")
+    else:
+        for q, got in sq.items():
+            if got != model["masks"].get(q, model["fall"].get(q)):
+                dis.append(f"Snowflake.nucleationTimes(group={q}): impl vials {got} vs model "
+                           f"{model['masks'].get(q, model['fall'].get(q))}")
     single = {g: model["masks"][_q([g])] for g in NAMES}
 
     def requery_dis(tag, rq):
@@ -561,7 +631,21 @@ def predicates(case, impl):
             u = sorted(set(i for g in q for i in want[g]))
             if m(q) != u:
                 out.append(Failure(clause="union_of_groups", key=f"union_of_groups|getVialGroup|{sc}",
-                                   detail=f"{where}: getVialGroup({q}) = {m(q)}, union of the classes: {u}"))
+                                   detail=f"{where}: getVialGroup({q}) = {m(q)} ({len(m(q)) if isinstance(m(q), list) else '-'} "
+                                          f"vials), union of the classes: {u} ({len(u)} vials)"))
+                break
+    for site, table in (("storeStates-list", impl.get("storeLists", {})), ("Snowflake.nucleationTimes", impl.get("statQueries", {}))):
+        if "raise" in table:
+            out.append(Failure(clause="union_of_groups", key=f"union_of_groups|{site}|raises {table['raise']},{sc}",
+                               detail=f"{where}: {site} raises {table['raise']}"))
+            continue
+        for qs, got in table.items():
+            q = json.loads(qs)
+            u = sorted(set(i for g in q for i in want[g]))
+            if got != u:
+                out.append(Failure(clause="union_of_groups", key=f"union_of_groups|{site}|{sc}",
+                                   detail=f"{where}: {site} with {q} gives vials {got}; the union of the classes, each vial "
+                                          f"once, is {u}"))
                 break
     # labels
     if "tables" in impl:
